@@ -42,6 +42,44 @@ MK = """
 //@   ensures[C05.keep] response == nil && unchanged("*internal.DumpedMachineStatePayload", "*internal.DKGConfirmation", "*internal.SignatureConfirmation", "map[int]*internal.DKGProposalParticipant", internal.DKGProposalParticipant.DkgCommit, internal.DKGProposalParticipant.DkgDeal, internal.DKGProposalParticipant.DkgResponse, internal.DKGProposalParticipant.DkgMasterKey, internal.DKGProposalParticipant.Username, "[]byte")
 """
 
+ERRACT = """
+// ---- error reports: the phase's error event turns an awaiting participant into its error status
+//@ spec func isDkgErrReq(args []interface{}) bool = len(args) == 1 && istype(args[0], requests.DKGProposalConfirmationErrorRequest)
+//@ spec func rqDkgErr(args []interface{}) requests.DKGProposalConfirmationErrorRequest = args[0].(requests.DKGProposalConfirmationErrorRequest)
+//@ spec func errPhase(ev fsm.Event, before internal.DKGParticipantStatus, after internal.DKGParticipantStatus) bool = (ev == EventDKGCommitConfirmationError && before == internal.CommitAwaitConfirmation && after == internal.CommitConfirmationError) || (ev == EventDKGDealConfirmationError && before == internal.DealAwaitConfirmation && after == internal.DealConfirmationError) || (ev == EventDKGResponseConfirmationError && before == internal.ResponseAwaitConfirmation && after == internal.ResponseConfirmationError) || (ev == EventDKGMasterKeyConfirmationError && before == internal.MasterKeyAwaitConfirmation && after == internal.MasterKeyConfirmationError)
+
+//@ func (*DKGProposalFSM).actionConfirmationError
+//@   safety C18
+//@   requires wfDkg(m)
+//@   ensures[C05.reject,C18.reject] err != nil ==> dkgViewsSame(m)
+//@   ensures[C05.shape] outEvent == "" && response == nil
+//@   ensures[C05.errreport] err == nil ==> isDkgErrReq(args) && old(rqDkgErr(args).ParticipantId in dkgQ(m.payload)) && errPhase(inEvent, old(dkgQ(m.payload)[rqDkgErr(args).ParticipantId].Status), dkgQ(m.payload)[rqDkgErr(args).ParticipantId].Status) && dkgQ(m.payload)[rqDkgErr(args).ParticipantId].Error == rqDkgErr(args).Error && rqDkgErr(args).Error != nil
+//@   ensures[C05.frame,C10.frame] err == nil ==> dkgOthersSame(m, rqDkgErr(args).ParticipantId) && unchanged("[]byte", internal.DKGProposalParticipant.DkgCommit, internal.DKGProposalParticipant.DkgDeal, internal.DKGProposalParticipant.DkgResponse, internal.DKGProposalParticipant.DkgMasterKey)
+
+// ---- start of the DKG: one awaiting record per invited participant
+//@ func (*DKGProposalFSM).actionInitDKGProposal
+//@   safety C18
+//@   requires m != nil && m.payload != nil && wfSigQ(m.payload) && (0 in sigQ(m.payload)) && injSig(sigQ(m.payload))
+//@   requires m.payload.DKGProposalPayload != nil ==> wfDkgQ(m.payload)
+//@   ensures[C05.initnoop] old(m.payload.DKGProposalPayload) != nil ==> err == nil && outEvent == "" && response == nil && dkgViewsSame(m)
+//@   ensures[C05.reject,C18.reject] err != nil ==> dkgViewsSame(m)
+//@   ensures[C05.initdkg] old(m.payload.DKGProposalPayload) == nil && err == nil ==> outEvent == inEvent && dp(m) != nil && fresh(dp(m)) && dkgQ(m.payload) != nil && dom(dkgQ(m.payload)) == old(dom(sigQ(m.payload))) && (forall k int :: k in dkgQ(m.payload) ==> dkgQ(m.payload)[k] != nil && dkgQ(m.payload)[k].Status == internal.CommitAwaitConfirmation && dkgQ(m.payload)[k].Username == old(sigQ(m.payload)[k].Username) && dkgQ(m.payload)[k].Error == nil)
+//@   ensures[C05.keep] unchanged("*internal.SignatureConfirmation", "*internal.SignatureProposalParticipant", "map[int]*internal.SignatureProposalParticipant") && m.payload.Threshold == old(m.payload.Threshold) && m.payload.SigningProposalPayload == old(m.payload.SigningProposalPayload) && m.payload.SignatureProposalPayload == old(m.payload.SignatureProposalPayload)
+//@   loop 0 invariant dp(m) != nil && fresh(dp(m)) && dkgQ(m.payload) != nil && fresh(dkgQ(m.payload))
+//@   loop 0 invariant dom(dkgQ(m.payload)) == $visited
+//@   loop 0 invariant forall k int :: k in $visited ==> dkgQ(m.payload)[k] != nil && fresh(dkgQ(m.payload)[k]) && allocated(dkgQ(m.payload)[k]) && dkgQ(m.payload)[k].Status == internal.CommitAwaitConfirmation && dkgQ(m.payload)[k].Username == old(sigQ(m.payload)[k].Username) && dkgQ(m.payload)[k].Error == nil
+//@   loop 0 invariant forall a int, b int :: (a in $visited) && (b in $visited) && a != b ==> dkgQ(m.payload)[a] != dkgQ(m.payload)[b]
+//@   loop 0 invariant unchanged("*internal.SignatureConfirmation", "*internal.SignatureProposalParticipant", "map[int]*internal.SignatureProposalParticipant", "*internal.DumpedMachineStatePayload") || true
+//@   loop 0 invariant m.payload.Threshold == old(m.payload.Threshold) && m.payload.SigningProposalPayload == old(m.payload.SigningProposalPayload) && m.payload.SignatureProposalPayload == old(m.payload.SignatureProposalPayload) && m.payload == old(m.payload)
+//@   loop 0 invariant unchanged("*internal.SignatureConfirmation", "*internal.SignatureProposalParticipant", "map[int]*internal.SignatureProposalParticipant")
+//@   loop 0 invariant forall q *internal.DKGProposalParticipant :: q.Status == old(q.Status) && q.Error == old(q.Error) && q.Username == old(q.Username) && q.DkgCommit == old(q.DkgCommit) && q.DkgDeal == old(q.DkgDeal) && q.DkgResponse == old(q.DkgResponse) && q.DkgMasterKey == old(q.DkgMasterKey) && q.DkgPubKey == old(q.DkgPubKey)
+//@   loop 1 invariant dp(m) != nil && fresh(dp(m)) && dkgQ(m.payload) != nil && dom(dkgQ(m.payload)) == old(dom(sigQ(m.payload)))
+//@   loop 1 invariant forall k int :: k in dkgQ(m.payload) ==> dkgQ(m.payload)[k] != nil && dkgQ(m.payload)[k].Status == internal.CommitAwaitConfirmation && dkgQ(m.payload)[k].Username == old(sigQ(m.payload)[k].Username) && dkgQ(m.payload)[k].Error == nil
+//@   loop 1 invariant m.payload.Threshold == old(m.payload.Threshold) && m.payload.SigningProposalPayload == old(m.payload.SigningProposalPayload) && m.payload.SignatureProposalPayload == old(m.payload.SignatureProposalPayload) && m.payload == old(m.payload)
+//@   loop 1 invariant unchanged("*internal.SignatureConfirmation", "*internal.SignatureProposalParticipant", "map[int]*internal.SignatureProposalParticipant")
+//@   loop 1 invariant forall q *internal.DKGProposalParticipant :: q.Status == old(q.Status) && q.Error == old(q.Error) && q.Username == old(q.Username) && q.DkgCommit == old(q.DkgCommit) && q.DkgDeal == old(q.DkgDeal) && q.DkgResponse == old(q.DkgResponse) && q.DkgMasterKey == old(q.DkgMasterKey) && q.DkgPubKey == old(q.DkgPubKey)
+"""
+
 out = []
 w = out.append
 w("""//go:build verif
@@ -104,5 +142,6 @@ for ph in phases:
 //@   loop 2 invariant unchanged("*internal.DumpedMachineStatePayload", "*internal.DKGConfirmation", "*internal.SignatureConfirmation", "map[int]*internal.DKGProposalParticipant", internal.DKGProposalParticipant.DkgCommit, internal.DKGProposalParticipant.DkgDeal, internal.DKGProposalParticipant.DkgResponse, internal.DKGProposalParticipant.DkgMasterKey, internal.DKGProposalParticipant.Error, internal.DKGProposalParticipant.Username, "[]byte")
 """ % ph)
 w(MK)
+w(ERRACT)
 open(PKG, "w").write("\n".join(out) + "\n")
 print("written", PKG)
